@@ -135,6 +135,10 @@ def model_names(kind, has_gd):
     return [n for n in ins if n in set(outs)]
 
 
+def CALLBACK(msg):
+    """A callback handed to open_input / open_ioport."""
+
+
 def judge_config(ctx, cfg, LOG):
     (entry, given, env_in, env_out, env_io, api_mode, use_environ, via_env_backend, mod, load) = cfg
     has_io, has_gd = VARIANTS[mod]
@@ -173,11 +177,18 @@ def judge_config(ctx, cfg, LOG):
                   'import-at-construction' if not load else 'load-did-not-import', case, imported)
         # the call
         port_name = 'GIVEN' if given else None
+        opts = {}
         if entry.startswith('open'):
             fn = getattr(b, entry)
             extra = {'foo': 7}
+            # the documented options of the call, rotating with the configuration (none / virtual / the others / all)
+            oi = sum(map(len, map(str, cfg))) + sum(bool(x) for x in cfg[1:5]) + len(mod)
+            allowed = {'open_input': ('virtual', 'callback'), 'open_output': ('virtual', 'autoreset'),
+                       'open_ioport': ('virtual', 'callback', 'autoreset')}[entry]
+            pick = ((), ('virtual',), ('callback', 'autoreset'), ('virtual', 'callback', 'autoreset'))[oi % 4]
+            opts = {k: (CALLBACK if k == 'callback' else True) for k in pick if k in allowed}
             args = (port_name,) if given else ()
-            r = fn(*args, **extra, **call_api)
+            r = fn(*args, **extra, **opts, **call_api)
         else:
             r = getattr(b, entry)(**call_api)
         imported = [e for e in LOG if e[0] == 'import']
@@ -188,12 +199,12 @@ def judge_config(ctx, cfg, LOG):
         api_kw = {'api': want_api} if want_api else {}
         if entry == 'open_input':
             want = [('Input', mod, port_name or env('MIDO_DEFAULT_INPUT'),
-                     {'virtual': False, 'callback': None, 'foo': 7, **api_kw})]
+                     {'virtual': False, 'callback': None, 'foo': 7, **opts, **api_kw})]
         elif entry == 'open_output':
             want = [('Output', mod, port_name or env('MIDO_DEFAULT_OUTPUT'),
-                     {'virtual': False, 'autoreset': False, 'foo': 7, **api_kw})]
+                     {'virtual': False, 'autoreset': False, 'foo': 7, **opts, **api_kw})]
         elif entry == 'open_ioport':
-            kw = {'virtual': False, 'callback': None, 'autoreset': False, 'foo': 7, **api_kw}
+            kw = {'virtual': False, 'callback': None, 'autoreset': False, 'foo': 7, **opts, **api_kw}
             nm = port_name or env('MIDO_DEFAULT_IOPORT')
             if has_io:
                 want = [('IOPort', mod, nm, kw)]
